@@ -160,8 +160,18 @@ class Real:
         self.task = self.wf.f
         from redun.cli import RedunClient
         self.client = RedunClient()
+        self.client.stdout = io.StringIO()
+        self.sys_path = list(sys.path)
+
+    def reset_import_paths(self):
+        """oneshot adds its --import-path arguments and the cwd to a process-global list (harmless in
+        the fresh interpreter of a real remote job); undo it so that in-process runs stay independent"""
+        from redun.utils import clear_import_paths
+        clear_import_paths()
+        sys.path[:] = self.sys_path
 
     def close(self):
+        self.reset_import_paths()
         os.chdir(self.old_cwd)
         if str(self.dir) in sys.path:
             sys.path.remove(str(self.dir))
@@ -198,13 +208,15 @@ class Real:
         for k in ENV_VARS:
             os.environ.pop(k, None)
         os.environ.update(env)
-        logging.getLogger("redun").setLevel(logging.ERROR)
+        logging.disable(logging.CRITICAL)
         try:
             with contextlib.redirect_stdout(io.StringIO()):
                 return ("ret", self.client.execute(list(command)))
         except Exception as e:  # noqa
             return ("exc", e)
         finally:
+            logging.disable(logging.NOTSET)
+            self.reset_import_paths()
             for k, v in saved.items():
                 if v is None:
                     os.environ.pop(k, None)
@@ -436,7 +448,7 @@ class Check(PropertyCheck):
         from redun.job_array import get_job_array_index
         r = self.rng
         g = Gen(r)
-        n = 500 if self.tier == "quick" else 6000
+        n = 250 if self.tier == "quick" else 6000
         terms, descr = [], []
 
         def add(t, d):
